@@ -296,3 +296,23 @@ Definition oracle_fault (inp obs : list N) : bool :=
     forallb shape_ok so && subset_steps [] ops so
     && (negb (cf_track cf) || ledger_steps [] ops so)
     && spec_steps (cf_cap cf) [] ops so).
+
+(** * Zero-sized elements (family 2): shape and count ledger *)
+Fixpoint zst_steps (obs : list N) (n : nat) : bool :=
+  match n with
+  | 0 => match obs with [leaked] => true | _ => false end
+  | S n' =>
+      match obs with
+      | ok :: c :: r :: l :: live :: rest =>
+          (c * r =? l)%N && Bool.eqb (c =? 0)%N (r =? 0)%N && (live =? l)%N && zst_steps rest n'
+      | _ => false
+      end
+  end.
+
+Definition oracle_zst (inp obs : list N) : bool :=
+  match run_parser p_hist inp with
+  | None => false
+  | Some (cf, ops) =>
+      zst_steps obs (length ops)
+      && (if all_fault_free ops then (last obs 1 =? 0)%N else true)
+  end.
